@@ -28,7 +28,7 @@ ATTR_SHAPES = [{}, {"custom_a": 1}, {"custom_a": "text é", "detail_b": [1, {"k"
                {"_detail": "disk seven", "code": 42, "_retry_after": 3}, {"__notes__": ["a note added with add_note"], "x1": None}]
 TEMPLATES = {"UnicodeEncodeError": [("utf-8", "text é", 1, 2, "reason")], "UnicodeTranslateError": [("text", 1, 2, "reason")]}
 BYTES_TEMPLATES = {"UnicodeDecodeError": [("utf-8", b"\xff\xfeabc", 0, 1, "invalid start byte")]}
-KINDS = ["plain", "propget", "propset", "batch0", "batch1", "batch3", "stream0", "stream2"]
+KINDS = ["plain", "propget", "propset", "batch0", "batch1", "batch3", "stream0", "stream2", "proxyiter"]
 
 
 def exception_classes(P):
@@ -163,6 +163,10 @@ def make_service(P, registry):
         def stream(self, k):
             return RaisingIter(k)
 
+        def __iter__(self):
+            # the object itself is iterable: `for x in proxy` / list(proxy) use the remote iterator
+            return RaisingIter(2)
+
     return armed, Svc()
 
 
@@ -192,14 +196,19 @@ def run_kind(P, p, kind):
             except Exception as x:
                 return got, x
             return got, None
-        if kind.startswith("stream"):
-            k = int(kind[6:])
+        if kind.startswith("stream") or kind == "proxyiter":
             got = []
-            it = p.stream(k)
+            it = p.stream(int(kind[6:])) if kind != "proxyiter" else iter(p)
             try:
                 for item in it:
                     got.append(item)
             except Exception as x:
+                if kind == "proxyiter":
+                    # the stream iterator lives inside the proxy's generator and cannot be closed by name: drop the frames that hold it now, in this
+                    # thread (see below), instead of leaving them to the cyclic collector
+                    import traceback
+                    traceback.clear_frames(x.__traceback__)
+                    x = x.with_traceback(None)
                 return got, x
             finally:
                 # close in the client thread: client and daemon share this process, and a stream iterator finalised by the
@@ -219,6 +228,8 @@ def expected_prefix(kind):
         return list(range(int(kind[5:])))
     if kind.startswith("stream"):
         return ["item%d" % (i + 1) for i in range(int(kind[6:]))]
+    if kind == "proxyiter":
+        return ["item1", "item2"]
     return []
 
 
@@ -239,6 +250,8 @@ def check_case(fx, p, armed_name, cls, clsname, args, attrs, sername, kind, rec,
         return
     prefix, exc = run_kind(P, p, kind)
     rec.count("kind_" + ("batch" if kind.startswith("batch") else "stream" if kind.startswith("stream") else kind))
+    if kind == "proxyiter":
+        rec.count("kind_stream")
     want_type = type(twin)
     is_comm = issubclass(want_type, P.errors.CommunicationError) and not issubclass(want_type, P.errors.SerializeError)
     if exc is None:
@@ -271,7 +284,7 @@ def check_case(fx, p, armed_name, cls, clsname, args, attrs, sername, kind, rec,
         rec.violation("exception-attributes-differ", "%s %s: %s attributes sent %r arrived %r" % (sername, kind, clsname, vars(twin), got_vars), pay)
         return
     tb = getattr(exc, "_pyroTraceback", None)
-    raiser = "__next__" if kind.startswith("stream") else ("boom" if kind.startswith("prop") else "raise_it")
+    raiser = "__next__" if kind.startswith("stream") or kind == "proxyiter" else ("boom" if kind.startswith("prop") else "raise_it")
     if not (isinstance(tb, list) and tb and all(isinstance(l, str) for l in tb) and any("make_exc" in l or raiser in l for l in tb)):
         rec.violation("remote-traceback-missing", "%s %s: %s arrived without usable remote traceback: %r" % (sername, kind, clsname, core.short(tb, 200)), pay)
         return
@@ -533,8 +546,10 @@ def run_shard(shard, rec):
                     for kind in KINDS:
                         if rec.should_stop(40):
                             break
-                        if kind.startswith("stream") and issubclass(cls, (StopIteration, StopAsyncIteration)):
+                        if (kind.startswith("stream") or kind == "proxyiter") and issubclass(cls, (StopIteration, StopAsyncIteration)):
                             continue
+                        if kind == "proxyiter" and issubclass(cls, AttributeError):
+                            continue      # (Proxy.__iter__ reads an AttributeError as "no remote iterator" and falls back to indexing: its documented design)
                         tokn[0] += 1
                         check_case(fx, p, armed, cls, clsname, args, attrs, sername, kind, rec, "tok%d" % tokn[0])
         for extra in ("unserialisable-object", "unserialisable-lock", "unserialisable-arg", "unserialisable-slots", "unserialisable-getstate-runtimeerror",
